@@ -382,11 +382,12 @@ func renderValue(rv reflect.Value) any {
 
 // GenCfg is the per-run (swarm) configuration of the value generator.
 type GenCfg struct {
-	ListCap  int // maximum list length
-	StrCap   int // maximum variable-text length
-	Alphabet int // 0 printable; 1 printable + pad bytes inside; 2 adds NUL and >=0x80; 3 arbitrary bytes; 4 valid multi-byte UTF-8 text
-	NumMode  int // 0 mixed; 1 extremes; 2 random bits
-	Stale    int // what the caller leaves in computed fields: 0 zero, 1 four (as the tests), 2 random, 3 mixed
+	ListCap  int  // maximum list length
+	StrCap   int  // maximum variable-text length
+	WrapObj  bool // object lists sized where count x element size passes 64 KiB (16-bit size arithmetic wraps there)
+	Alphabet int  // 0 printable; 1 printable + pad bytes inside; 2 adds NUL and >=0x80; 3 arbitrary bytes; 4 valid multi-byte UTF-8 text
+	NumMode  int  // 0 mixed; 1 extremes; 2 random bits
+	Stale    int  // what the caller leaves in computed fields: 0 zero, 1 four (as the tests), 2 random, 3 mixed
 	NilBody  bool
 }
 
@@ -426,6 +427,7 @@ func drawCfg(t *Tape, thorough bool) GenCfg {
 	c.Alphabet = t.Intn(5)
 	c.NumMode = t.Intn(3)
 	c.Stale = t.Intn(4)
+	c.WrapObj = t.Intn(32) == 31
 	return c
 }
 
@@ -797,7 +799,13 @@ func (g *Gen) fillWithKey(rv reflect.Value, ts *TypeSchema, key *TableKey) {
 			setList(fv, reflect.ValueOf(sl))
 		case "objlist":
 			n := g.count(f.Prefix)
-			if n > 2000 && g.t.Intn(3) != 0 {
+			if w := fixedWireSize(strings.TrimPrefix(strings.TrimPrefix(f.GoType, "[]"), "*"), rv); g.cfg.WrapObj && w > 0 {
+				// just past the point where count x element size no longer fits 16 bits (or twice that)
+				base := (65536 + w - 1) / w * (1 + g.t.Intn(2))
+				if m := base + []int{0, 1, 9}[g.t.Intn(3)]; m <= prefixMax(f.Prefix) {
+					n = m
+				}
+			} else if n > 2000 && g.t.Intn(3) != 0 {
 				n = 2000 + g.t.Intn(2) // mostly keep object lists moderate; one in three keeps its size (up to the prefix maximum)
 			}
 			if n == 0 && g.t.Intn(2) == 0 {
@@ -1276,25 +1284,58 @@ func lateRegister(c *RunCtx, g *Gen, name string) bool {
 // value to nil and reports whether it found one.  Such values are outside the encoder's
 // guarantee (C17 says so): Encode may fail on them in any way - which is what makes them
 // useful as the failing operation of a history.
-func nilNested(rv reflect.Value, ts *TypeSchema) bool {
-	for i := range ts.Fields {
-		f := &ts.Fields[i]
-		fv := fieldOf(rv, f.Name)
-		switch f.Kind {
-		case "obj":
-			if fv.Kind() == reflect.Ptr && !fv.IsNil() {
-				fv.Set(reflect.Zero(fv.Type()))
-				return true
-			}
-		case "body":
-			if !fv.IsNil() {
-				if dn := typeNameOfType(fv.Elem().Type()); schema.Types[dn] != nil {
-					if nilNested(fv.Elem().Elem(), schemaOf(dn)) {
-						return true
+func nilNested(rv reflect.Value, ts *TypeSchema, skip int) bool {
+	// skip: how many nested pointer parts to leave in place before the one that is removed (an
+	// encoder then fails AFTER it has written something: error paths with partial output)
+	var cands []reflect.Value
+	var walk func(rv reflect.Value, ts *TypeSchema)
+	walk = func(rv reflect.Value, ts *TypeSchema) {
+		for i := range ts.Fields {
+			f := &ts.Fields[i]
+			fv := fieldOf(rv, f.Name)
+			switch f.Kind {
+			case "obj":
+				if fv.Kind() == reflect.Ptr && !fv.IsNil() {
+					cands = append(cands, fv)
+				}
+			case "body":
+				if !fv.IsNil() {
+					if dn := typeNameOfType(fv.Elem().Type()); schema.Types[dn] != nil {
+						walk(fv.Elem().Elem(), schemaOf(dn))
 					}
 				}
 			}
 		}
 	}
-	return false
+	walk(rv, ts)
+	if len(cands) == 0 {
+		return false
+	}
+	fv := cands[skip%len(cands)]
+	fv.Set(reflect.Zero(fv.Type()))
+	return true
+}
+
+// fixedWireSize is the number of bytes one element of an object list takes on the wire when
+// every field of the element type has a fixed width (0 otherwise), by the pinned schema.
+func fixedWireSize(goType string, parent reflect.Value) int {
+	name := typeNameOfType(parent.Type())
+	if i := strings.LastIndex(name, "."); i >= 0 {
+		name = name[:i+1] + goType
+	}
+	ts := schema.Types[name]
+	if ts == nil {
+		return 0
+	}
+	w := 0
+	for i := range ts.Fields {
+		f := &ts.Fields[i]
+		switch f.Kind {
+		case "num", "fixstr":
+			w += f.Width
+		default:
+			return 0
+		}
+	}
+	return w
 }
